@@ -19,6 +19,8 @@ mod eng;
 mod evid;
 mod gen;
 mod m_rules;
+mod m_search;
+mod m_undo;
 mod par;
 mod rng;
 
@@ -27,6 +29,57 @@ use serde_json::Value;
 fn usage() -> ! {
     eprintln!("usage: vh run <PROP> <tier> <seed> | vh worker <mode> <shard> <nshards> <seed> <tier> <resfile> [extra..] | vh replay <path> | vh selftest");
     std::process::exit(64);
+}
+
+const WALK: &[&str] = &["C01", "C02", "C04", "C05", "C11", "C16"];
+
+fn run(prop: &str, tier: &str, seed: u64) -> i32 {
+    match prop {
+        p if WALK.contains(&p) => m_rules::run(p, tier, seed),
+        "C12" | "C20" => m_rules::run(prop, tier, seed),
+        "C03" => m_undo::run(tier, seed),
+        "C06" | "C18" => m_search::run_hist(prop, tier, seed),
+        "C07" => {
+            let (chk, agg) = m_search::run_c07(tier, seed);
+            evid::finalize(chk, &agg)
+        }
+        "C08" => m_search::run_c08(tier, seed),
+        "C09" => m_search::run_c09(tier, seed),
+        "C10" => {
+            let (chk, agg) = m_search::run_c10(tier, seed);
+            evid::finalize(chk, &agg)
+        }
+        _ => {
+            eprintln!("unknown property {prop}");
+            64
+        }
+    }
+}
+
+fn worker(mode: &str, shard: usize, nshards: usize, seed: u64, tier: &str, out: &mut par::Out, _extra: &[String]) {
+    match mode {
+        p if WALK.contains(&p) || p == "C12" || p == "C20" => m_rules::worker(p, shard, nshards, seed, tier, out),
+        "C03" => m_undo::worker(shard, nshards, seed, tier, out),
+        "C06" | "C18" => m_search::worker_hist(mode, shard, nshards, seed, tier, out),
+        "C07" => m_search::worker_c07(shard, nshards, seed, tier, out),
+        "C08" => m_search::worker_c08(shard, nshards, seed, tier, out),
+        "C09" => m_search::worker_c09(shard, nshards, seed, tier, out),
+        "C10" => m_search::worker_c10(shard, nshards, seed, tier, out),
+        _ => usage(),
+    }
+}
+
+fn replay(prop: &str, case: &Value, out: &mut par::Out) {
+    match prop {
+        p if WALK.contains(&p) || p == "C12" || p == "C20" => m_rules::replay(p, case, out),
+        "C03" => m_undo::replay(case, out),
+        "C06" | "C18" => m_search::replay_hist(prop, case, out),
+        "C07" => m_search::replay_c07(case, out),
+        "C08" => m_search::replay_c08(case, out),
+        "C09" => m_search::replay_c09(case, out),
+        "C10" => m_search::replay_c10(case, out),
+        _ => println!("no replay routine for {prop}"),
+    }
 }
 
 fn main() {
@@ -53,34 +106,18 @@ fn main() {
             if args.len() < 5 {
                 usage();
             }
-            let prop = args[2].as_str();
-            let tier = args[3].as_str();
             let seed: u64 = args[4].parse().unwrap_or(1);
-            let code = match prop {
-                "C01" | "C02" | "C04" | "C05" | "C11" | "C12" | "C16" | "C20" => m_rules::run(prop, tier, seed),
-                _ => {
-                    eprintln!("unknown property {prop}");
-                    64
-                }
-            };
-            std::process::exit(code);
+            std::process::exit(run(&args[2], &args[3], seed));
         }
         "worker" => {
             if args.len() < 8 {
                 usage();
             }
-            let mode = args[2].as_str();
             let shard: usize = args[3].parse().unwrap();
             let nshards: usize = args[4].parse().unwrap();
             let seed: u64 = args[5].parse().unwrap();
-            let tier = args[6].as_str();
             let mut out = par::Out::open(&args[7]);
-            match mode {
-                "C01" | "C02" | "C04" | "C05" | "C11" | "C12" | "C16" | "C20" => {
-                    m_rules::worker(mode, shard, nshards, seed, tier, &mut out)
-                }
-                _ => usage(),
-            }
+            worker(&args[2], shard, nshards, seed, &args[6], &mut out, &args[8..]);
             out.done();
         }
         "replay" => {
@@ -91,16 +128,15 @@ fn main() {
             let v: Value = serde_json::from_str(&text).expect("replay json");
             let prop = v["property"].as_str().unwrap_or("").to_string();
             println!("replay of {prop}: {}", v["message"]);
-            let tmp = std::env::temp_dir().join(format!("vh-replay-{}.res", std::process::id()));
+            let dir = par::make_workdir("replay");
+            // the engine's own stdout is needed by some replays: route it through a file
+            let tmp = dir.join("replay.res");
             let mut out = par::Out::open(tmp.to_str().unwrap());
             let case = if v["case"]["crash"] == true { v["case"]["case"].clone() } else { v["case"].clone() };
-            match prop.as_str() {
-                "C01" | "C02" | "C04" | "C05" | "C11" | "C12" | "C16" | "C20" => m_rules::replay(&prop, &case, &mut out),
-                _ => println!("no replay routine for {prop}"),
-            }
+            replay(&prop, &case, &mut out);
             let n = out.viols;
             out.done();
-            let _ = std::fs::remove_file(&tmp);
+            let _ = std::fs::remove_dir_all(&dir);
             println!("replay observed {n} violation(s)");
             std::process::exit(if n > 0 { 1 } else { 0 });
         }
